@@ -152,7 +152,7 @@ def run(prog: Program, rep, thorough: bool) -> None:
             if why:
                 problems.append(f'the scan predicate `{txt}` {why}')
         except Undecided as exc:
-            problems.append(f'predicate not readable: {exc}')
+            raise AnalysisError(f'index_at_distance predicate: {exc}') from exc
     elif not problems:
         problems.append('scan predicate not found')
     if default_ok is False:
@@ -207,15 +207,14 @@ def run(prog: Program, rep, thorough: bool) -> None:
                     if unit_param:
                         st2.env[unit_param] = C.enum_val(prog, uname)
                     v2 = ev.eval(lam.body, st2, Ctx(hp, f, None, 0))
-                    qd = C.mk_quantity(ev, st2, prog, 'Distance', 'x', 'Foot')
-                    want_key, _ = ev.call_value(prog.find_method(qd.cls, 'get_in'), [C.enum_val(prog, uname)], self_val=qd, st=st2)
+                    want_key = Scalar(C.read_raw_in(ev, prog, 'Distance', 'x', uname))
                     if not (isinstance(v2, Cond) and v2.test.rf is not None and isinstance(want_key, Scalar)
                             and v2.test.rf.equals(want_key.rf - A.sym('q'))):
                         why = (f'does not read the row distance in the caller\'s unit: with unit {uname} it tests '
                                f'{getattr(v2, "test", v2)!r}, expected {want_key!r} - q >= 0')
                         break
         except Undecided as exc:
-            why = f'not readable: {exc}'
+            raise AnalysisError(f'{fname} predicate: {exc}') from exc
         if why or not arr_ok:
             rep.fail('C20.R1', hp.path, lam.lineno, f.qualname, f'{fname}:predicate',
                      f'{fname}: the {what} predicate `{norm(lam.body)}` {why}' if why else
